@@ -679,6 +679,7 @@ int find_card(const Hdu &h, const std::string &key) {
 	return -1;
 }
 void write_card(Bytes &img, const Hdu &h, size_t idx, const std::string &card80) {
+	if (h.hdr_off + 80 * idx + 80 > img.size()) return;   // never write outside the image
 	memcpy(img.data() + h.hdr_off + 80 * idx, card80.data(), 80);
 }
 
@@ -795,9 +796,13 @@ bool apply_corruption(Bytes &img, const Json &op, std::string &note) {
 		write_card(img, h, h.end_card, std::string(80, ' '));
 		return true;
 	}
+	// ops below splice whole HDUs: an HDU whose header (after an earlier edit) promises more bytes than the
+	// image holds cannot be spliced
+	auto inside = [&](const Hdu &h) { return h.hdr_off <= h.data_off && h.data_off <= h.next_off && h.next_off <= img.size(); };
 	if (c == "resize_primary") {
 		const Hdu &h = hdus[0];
 		if (h.naxis.empty()) { note = "primary has no axes"; return false; }
+		if (h.data_off > img.size()) { note = "data unit not inside the image"; return false; }
 		size_t ax = (size_t)((uint64_t)(op.geti("axis") < 1 ? 0 : op.geti("axis") - 1) % h.naxis.size());
 		int64_t n = op.geti("n");
 		if (n < 0 || h.naxis[ax] > (int64_t(1) << 32) || n > 4 * std::max<int64_t>(h.naxis[ax], 4)) { note = "size out of range"; return false; }
@@ -832,6 +837,7 @@ bool apply_corruption(Bytes &img, const Json &op, std::string &note) {
 			if (a == b) { note = "same extension"; return false; }
 			if (a > b) std::swap(a, b);
 			const Hdu &A = hdus[(size_t)a], &B = hdus[(size_t)b];
+			if (!inside(A) || !inside(B) || A.next_off > B.hdr_off) { note = "extension not inside the image"; return false; }
 			Bytes out(img.begin(), img.begin() + (long)A.hdr_off);
 			out.insert(out.end(), img.begin() + (long)B.hdr_off, img.begin() + (long)B.next_off);
 			out.insert(out.end(), img.begin() + (long)A.next_off, img.begin() + (long)B.hdr_off);
@@ -842,6 +848,7 @@ bool apply_corruption(Bytes &img, const Json &op, std::string &note) {
 		}
 		int hi = hdu_index("hdu", true);
 		const Hdu &h = hdus[(size_t)hi];
+		if (!inside(h)) { note = "extension not inside the image"; return false; }
 		if (c == "drop_ext") { img.erase(img.begin() + (long)h.hdr_off, img.begin() + (long)h.next_off); return true; }
 		if (c == "dup_ext") { Bytes e(img.begin() + (long)h.hdr_off, img.begin() + (long)h.next_off); img.insert(img.begin() + (long)h.next_off, e.begin(), e.end()); return true; }
 		// resize_ext: a consistent 1-d double image of another length
@@ -851,6 +858,8 @@ bool apply_corruption(Bytes &img, const Json &op, std::string &note) {
 		if (n == h.naxis[0]) { note = "unchanged"; return false; }
 		int ci = find_card(h, "NAXIS1");
 		if (ci < 0) { note = "no NAXIS1"; return false; }
+		// an earlier card edit may have made the header promise more data than the image holds
+		if (h.data_off + 8 * (uint64_t)h.naxis[0] > img.size() || h.next_off > img.size()) { note = "data unit not inside the image"; return false; }
 		std::vector<double> v((size_t)h.naxis[0]);
 		for (size_t i = 0; i < v.size(); i++) {
 			uint64_t u = 0;
